@@ -76,7 +76,11 @@ def is_putback(s):
     for x in walk(s):
         if x.get('kind') in ('CallExpr', 'CXXMemberCallExpr'):
             ks = kids(x)
-            if ks and member_name(ks[0]) == 'splice' and 'queueList' in names_in(ks[0]) and any('tempList' in names_in(a) for a in ks[1:]):
+            # the source of the splice is a LOCAL list (whatever its name), the target the member queueList
+            if ks and member_name(ks[0]) == 'splice' and 'queueList' in names_in(ks[0]) and \
+               any(y.get('kind') == 'DeclRefExpr' and (y.get('referencedDecl') or {}).get('kind') == 'VarDecl' and
+                   'list' in (y.get('type') or {}).get('qualType', '').lower()
+                   for a in ks[1:] for y in walk(a)):
                 return True
     return False
 
